@@ -60,7 +60,7 @@ func ownA(a hcl.Attributes) hcl.Attributes {
 	if first != "" {
 		delete(a, first)
 	}
-	a["callers_own"] = &hcl.Attribute{Name: "callers_own"}
+	a["callers_own"] = &hcl.Attribute{Name: "callers_own", Expr: noExpr}
 	return cp
 }
 
@@ -266,14 +266,14 @@ func (w *World) execOp(t int, op OpM) (out func() string) {
 		return func() string { return "variables " + name + " = " + dumpTraversals(tv) }
 	case "content":
 		be := w.body(op.Target)
-		sel, _ := maskSchema(w.kindSchema(be.kind), op.Mask|op.Mask>>7)
+		sel, _ := w.schemaFor(be.kind, op.Mask|op.Mask>>7)
 		c, d := be.body.Content(sel)
 		d = ownD(d)
 		c = ownC(c)
 		return func() string { return "content " + dumpContent(c) + " !" + dumpDiags(d) }
 	case "partial":
 		be := w.body(op.Target)
-		sel, rest := maskSchema(w.kindSchema(be.kind), op.Mask)
+		sel, rest := w.schemaFor(be.kind, op.Mask)
 		c, remain, d := be.body.PartialContent(sel)
 		c2, d2 := remain.Content(rest)
 		d = ownD(d)
@@ -354,7 +354,7 @@ func (w *World) execOp(t int, op OpM) (out func() string) {
 		return func() string { return "static " + name + " " + st }
 	case "merge_content":
 		m := hcl.MergeBodies([]hcl.Body{w.rootTarget(op.Target), w.rootTarget(op.Expr)})
-		sel, _ := maskSchema(w.kindSchema("root"), op.Mask|op.Mask>>5|op.Mask>>11)
+		sel, _ := w.schemaFor("root", op.Mask|op.Mask>>5|op.Mask>>11)
 		c, rem, d := m.PartialContent(sel)
 		a, d2 := rem.JustAttributes()
 		d = ownD(d)
